@@ -2,10 +2,14 @@
 
 E2 part: the counting rule on real worker objects (sync / gthread / base_async handle loops): the
 worker stays alive below max_requests, stops at max_requests + its jitter, the limit-reaching
-response is complete.  E4 part: real servers of every worker class under sequential and concurrent
+response is complete (keep-alive on and off).  E3 part: the real Arbiter.run() on the simulated kernel
+while one or several workers leave by themselves at the same instant, each exit placed while the
+master sleeps or between two source lines of its pass over the worker table: the master stays in its
+loop, kills nobody, the pool is refilled.  E4 part: real servers of every worker class under sequential and concurrent
 load; every client outcome classified, requests counted per answering pid, pool size monitored.
 """
 import json
+import os
 import threading
 import time
 
@@ -13,9 +17,11 @@ from vlib import common, ref_resp
 from vlib.common import Run, rng_for
 
 PROP = "C18"
-RULE = ("E2 cell = (worker loop, max_requests 0..6, jitter 0..3, requests per connection 1..3); live cell = (worker class, "
-        "workers 1-2, max_requests 2-5, jitter 0-2, load shape sequential / 8 concurrent clients); distinct = cell tuple; every "
-        "cell is non-trivial")
+RULE = ("E2 cell = (worker loop, max_requests 0..6, jitter 0..3, requests per connection 1..3, keep-alive on / off); E3 cell = (pool "
+        "size 1-4, number of workers leaving at the same instant, instant on / off the master's wake-up, placement of each exit: "
+        "while the master sleeps or before the k-th source line of its pass over the worker table); live cell = (worker class, "
+        "workers 1-2, max_requests 2-5, jitter 0-2, load shape sequential / 8 concurrent clients, keep-alive 0 / 2, bind tcp / unix "
+        "/ both); distinct = cell tuple; every cell is non-trivial")
 
 
 # ---- E2 counting rule ------------------------------------------------------------------------------
@@ -32,10 +38,10 @@ class BoomApp:
         raise RuntimeError("scripted application failure")
 
 
-def e2_failing_cell(run, e2, kind, m, j):
+def e2_failing_cell(run, e2, kind, m, j, keepalive=2):
     """max_requests counts requests handled, also those the application failed."""
     v = []
-    h = e2.Harness(kind, {"max_requests": m, "max_requests_jitter": j, "keepalive": 2})
+    h = e2.Harness(kind, {"max_requests": m, "max_requests_jitter": j, "keepalive": keepalive})
     h._keep_alive_flag = False
     try:
         w = h.worker
@@ -99,9 +105,10 @@ def e5_cell(run, e5, rng):
     return v, case, k
 
 
-def e2_cell(run, e2, kind, m, j, per_conn):
+def e2_cell(run, e2, kind, m, j, per_conn, keepalive=2):
+    """keepalive = 0: keep-alive switched off (every response closes its connection): the counting rule is the same."""
     v = []
-    h = e2.Harness(kind, {"max_requests": m, "max_requests_jitter": j, "keepalive": 2})
+    h = e2.Harness(kind, {"max_requests": m, "max_requests_jitter": j, "keepalive": keepalive})
     h._keep_alive_flag = False
     try:
         w = h.worker
@@ -128,8 +135,8 @@ def e2_cell(run, e2, kind, m, j, per_conn):
                     break
                 continue
             if alive and n >= m + j:
-                v.append(("worker-not-stopped-at-limit", "%s worker still alive after %d requests (max_requests=%d, jitter=%d)" % (
-                    kind, n, m, j)))
+                v.append(("worker-not-stopped-at-limit", "%s worker still alive after %d requests (max_requests=%d, jitter=%d, "
+                          "keepalive=%d)" % (kind, n, m, j, keepalive)))
                 break
             if not alive and stopped_at is None:
                 stopped_at = n
@@ -145,6 +152,8 @@ def e2_cell(run, e2, kind, m, j, per_conn):
                 break
         if m and stopped_at is not None:
             run.count("e2_limit_reached")
+            if not keepalive:
+                run.count("e2_limit_reached_with_keepalive_off/" + kind)
         if m == 0:
             run.count("e2_unlimited_1000_requests")
         run.info["e2_limits_seen"] = run.info.get("e2_limits_seen", 0) + (1 if stopped_at else 0)
@@ -153,13 +162,103 @@ def e2_cell(run, e2, kind, m, j, per_conn):
     return v
 
 
+# ---- E3: the real master loop while workers leave by themselves ----------------------------------------------
+
+class ExitPlacement:
+    """Schedule for engine E3.  The i-th worker exit that becomes possible happens either at the first opportunity ("wake":
+    while the master sleeps in select(), or at the return of a system call) or just before the k-th source line that the master
+    executes inside Arbiter.murder_workers() from then on (its once-per-wake-up pass over the worker table).  An exit that finds
+    no such line happens when virtual time advances."""
+
+    def __init__(self, plan, lo, hi):
+        self.plan = list(plan)
+        self.lo, self.hi = lo, hi
+        self.order = []
+        self.lines_seen = {}
+
+    def fire(self, kernel, idx, name, pid):
+        if pid not in self.order:
+            self.order.append(pid)
+        i = self.order.index(pid)
+        place = self.plan[i] if i < len(self.plan) else "wake"
+        if place == "wake":
+            return True
+        if isinstance(name, tuple) and name[0] == "line" and self.lo <= name[1] <= self.hi:
+            n = self.lines_seen.get(pid, 0)
+            self.lines_seen[pid] = n + 1
+            return n >= place
+        return False
+
+
+def e3_murder_lines(e3):
+    code = e3.arb_mod.Arbiter.murder_workers.__code__
+    lines = sorted(set(ln for _, _, ln in code.co_lines() if ln is not None and ln > code.co_firstlineno))
+    return lines[0], lines[-1]
+
+
+def e3_cell(run, e3, workers, nexits, at, plan):
+    """`nexits` of `workers` healthy workers leave by themselves with status 0 at the same instant (what workers that reach
+    max_requests together do); each exit is placed by `plan`.  The master must stay in its loop, must not signal anybody, and the
+    pool must be back at `workers` processes."""
+    import signal as _signal
+    lo, hi = e3_murder_lines(e3)
+    sc = {"workers": workers, "timeout": 30, "graceful_timeout": 3, "default_policy": {}, "spawn_policy": {}, "max_ticks": 200,
+          "events": [{"type": "worker_exit", "which": 0, "status": 0, "at": at} for _ in range(nexits)] +
+                    [{"type": "end", "at": at + 5.0}]}
+    k = e3.run_history(sc, ExitPlacement(plan, lo, hi))
+    v = []
+    run.count("e3_histories")
+    inside = [d for d in k.deliveries if d[1].startswith("('line'") and lo <= int(d[1].split(",")[1].strip(" )")) <= hi]
+    if inside:
+        run.count("e3_worker_exits_inside_murder_workers", len(inside))
+    if any(d[1].startswith(("select", "sleep", "before-time")) for d in k.deliveries):
+        run.count("e3_worker_exits_while_master_sleeps")
+    if nexits > 1:
+        run.count("e3_simultaneous_exits")
+    exited = [p for p in k.procs.values() if p.state != "run"]
+    if len(exited) < nexits:
+        return v, "only %d of %d scripted exits happened" % (len(exited), nexits), k
+    desc = "%d of %d workers exit with status 0 at t=%.1f, placed %s" % (nexits, workers, at, plan)
+    if k.exit_code != "running":
+        errs = [m for lvl, m in getattr(k, "log_records", []) if lvl in ("error", "exception", "critical")][:2]
+        exc = [e for e in k.log if e[1] == "master_exception"][:1]
+        v.append(("master-stopped-when-workers-recycled", "%s: the master left its loop (exit %s)%s%s" % (
+            desc, k.exit_code, " logging %s" % errs if errs else "", " %s" % (exc,) if exc else "")))
+    hard = [(p.pid, sig) for p in k.procs.values() for (_t, sig) in p.sent
+            if sig in (int(_signal.SIGQUIT), int(_signal.SIGKILL), int(_signal.SIGABRT), int(_signal.SIGINT))]
+    if hard:
+        v.append(("master-killed-workers-when-others-recycled", "%s: the master sent %s (pid, signal) although every worker's "
+                  "heartbeat is current and nobody asked it to stop" % (desc, hard[:6])))
+    if k.exit_code == "running":
+        live = len(k.live())
+        if live < workers:
+            v.append(("recycled-worker-not-replaced/simulated", "%s: %d live workers 5 s later, %d configured" % (desc, live, workers)))
+        else:
+            run.count("e3_pool_restored_checks")
+    return v, None, k
+
+
+def e3_plans(tier, rng, workers, nexits, nlines):
+    """placements of the first two exits (the others follow the second one)"""
+    places = ["wake"] + list(range(nlines))
+    out = []
+    for p1 in places:
+        if nexits == 1:
+            out.append([p1])
+            continue
+        seconds = places if tier != "quick" else sorted(set(["wake", 0] + [rng.randrange(nlines) for _ in range(2)]), key=str)
+        for p2 in seconds:
+            out.append([p1, p2] + [p2] * (nexits - 2))
+    return out
+
+
 # ---- E4 live -------------------------------------------------------------------------------------------
 
 def live_scenario(run, e4, sc):
     v = []
     info = {}
     wc, nworkers, m, j = sc["class"], sc["workers"], sc["max_requests"], sc["jitter"]
-    settings = {"max_requests": m, "max_requests_jitter": j, "graceful_timeout": 5, "timeout": 30, "keepalive": 2}
+    settings = {"max_requests": m, "max_requests_jitter": j, "graceful_timeout": 5, "timeout": 30, "keepalive": sc.get("keepalive", 2)}
     if wc == "gthread":
         settings["threads"] = 4
     app_source = None
@@ -254,6 +353,25 @@ def live_scenario(run, e4, sc):
                 return v, "no access records found", info
         if sc.get("bind") == "both":
             run.count("live_two_listener_load")
+        # the service itself outlives every recycling: the master is still there, and so is the name clients connect to
+        master_gone = not e4.alive(srv.master_pid)
+        crashed = "Unhandled exception in main loop" in srv.error_log()
+        if master_gone or crashed:
+            srv.reap()
+            st = srv.statuses.get(srv.master_pid)
+            v.append(("master-stopped-when-workers-recycled", "after %d requests with max_requests=%d on %d %s workers the master %s%s" % (
+                len(log), m, nworkers, wc, "has exited (status %s)" % (None if st is None else st[0] >> 8) if master_gone else "is running",
+                "; it logged 'Unhandled exception in main loop': %s" % srv.error_log().split("Unhandled exception in main loop")[1][-300:]
+                if crashed else "")))
+        else:
+            run.count("live_master_alive_checks")
+        if sc.get("bind") in ("unix", "both"):
+            if not os.path.exists(srv.sockpath):
+                v.append(("unix-socket-file-removed-while-master-runs", "bind unix:%s, %s: after %d requests with max_requests=%d the "
+                          "socket file is gone (master alive: %s); outcomes %s" % (
+                              os.path.basename(srv.sockpath), wc, len(log), m, not master_gone, outcomes)))
+            else:
+                run.count("live_unix_socket_file_checks")
         bad = [r for r in log if r["outcome"] not in ("ok", "ok-500")]
         if bad:
             kinds = sorted(set(r["outcome"] for r in bad))
@@ -278,6 +396,10 @@ def live_scenario(run, e4, sc):
                 v.append(("no-recycling-observed", "%d requests answered by %d pids only" % (len(log), len(per_pid))))
             else:
                 run.count("live_recycling_observed")
+                if not sc.get("keepalive", 2):
+                    run.count("live_recycling_with_keepalive_off/" + wc)
+                if sc.get("bind") == "unix":
+                    run.count("live_recycling_on_unix_bind/" + wc)
             if pool_low:
                 v.append(("recycled-worker-not-replaced", "pool below %d for more than 3 s: %s" % (nworkers, pool_low[:2])))
         else:
@@ -342,10 +464,20 @@ def live_scenarios(tier, seed):
     rng = rng_for(seed, "c18-live")
     out = []
     reps = 1 if tier == "quick" else 4
+    rng2 = rng_for(seed, "c18-live-corners")
     for rep in range(reps):
+        unix_too = rng2.choice(["sync", "gevent", "eventlet"])
         for wc in ("sync", "gthread", "gevent", "eventlet"):
             out.append({"class": wc, "workers": rng.choice([1, 2]), "max_requests": rng.randint(2, 5), "jitter": rng.randint(0, 2),
                         "concurrency": 1, "requests": 60})
+            # configuration corners of the sequential scenarios (one request per connection, so nothing else changes): keep-alive
+            # switched off - always for the gevent / eventlet loop -, and a unix socket instead of TCP - always for gthread
+            if rep == 0:
+                out[-1]["keepalive"] = 0 if wc in ("gevent", "eventlet") else rng2.choice([0, 2])
+                out[-1]["bind"] = "unix" if wc in ("gthread", unix_too) else "tcp"
+            else:
+                out[-1]["keepalive"] = rng2.choice([0, 0, 2, 5])
+                out[-1]["bind"] = rng2.choice(["unix", "tcp"])
             out.append({"class": wc, "workers": 2, "max_requests": rng.randint(2, 5), "jitter": rng.randint(0, 2),
                         "concurrency": 8, "requests": 240 if tier == "quick" else 400})
         out.append({"class": rng.choice(["sync", "gthread", "gevent", "eventlet"]), "workers": 2, "max_requests": 0,
@@ -374,16 +506,34 @@ def shard(sh):
     run = Run(PROP, tier, sh["seed"], "exploration", RULE)
     if sh["kind"] == "e2":
         from vlib import e2_worker as e2
-        for (kind, m, j, pc) in sh["cells"]:
-            run.case(("e2", kind, m, j, pc))
+        for cell in sh["cells"]:
+            kind, m, j, pc = cell[:4]
+            ka = cell[4] if len(cell) > 4 else 2
+            run.case(("e2", kind, m, j, pc, ka))
             run.count("e2_cells")
-            for mech, summary in e2_cell(run, e2, kind, m, j, pc):
-                run.violation(mech, summary, {"part": "e2", "cell": [kind, m, j, pc]})
+            if not ka:
+                run.count("e2_keepalive_off_cells")
+            for mech, summary in e2_cell(run, e2, kind, m, j, pc, ka):
+                run.violation(mech, summary, {"part": "e2", "cell": [kind, m, j, pc, ka]})
             if m and pc == 1:
-                run.case(("e2-failing", kind, m, j))
-                for mech, summary in e2_failing_cell(run, e2, kind, m, j):
-                    run.violation(mech, summary, {"part": "e2-failing", "cell": [kind, m, j]})
+                run.case(("e2-failing", kind, m, j, ka))
+                for mech, summary in e2_failing_cell(run, e2, kind, m, j, ka):
+                    run.violation(mech, summary, {"part": "e2-failing", "cell": [kind, m, j, ka]})
         run.sample({"part": "e2", "cells": sh["cells"][:3]}, cap=1)
+    elif sh["kind"] == "e3":
+        from vlib import e3_simkernel as e3
+        rng = rng_for(sh["seed"], "c18-e3", sh["sub"])
+        for (workers, nexits, at) in sh["cells"]:
+            for plan in e3_plans(tier, rng, workers, nexits, 4 + 4 * workers):
+                if run.enough():
+                    break
+                v, reason, k = e3_cell(run, e3, workers, nexits, at, plan)
+                run.case(("e3", workers, nexits, at, tuple(i for i, _ in k.deliveries)))
+                if reason is not None:
+                    run.inconclusive_because("simulated history (%d workers, %d exits, %s): %s" % (workers, nexits, plan, reason))
+                for mech, summary in v:
+                    run.violation(mech, summary, {"part": "e3", "cell": [workers, nexits, at, plan]})
+        run.sample({"part": "e3", "cells": sh["cells"][:2]}, cap=1)
     elif sh["kind"] == "e5":
         from vlib import e5_gthread as e5
         rng = rng_for(sh["seed"], "c18-e5", sh["sub"])
@@ -407,7 +557,8 @@ def shard(sh):
                 v, reason, info = live_scenario(run, e4, sc)
             if reason is None or v:
                 break
-        run.case(("live", sc.get("kind", "load")) + tuple(sc[k] for k in ("class", "workers", "max_requests", "jitter", "concurrency")))
+        run.case(("live", sc.get("kind", "load")) + tuple(sc[k] for k in ("class", "workers", "max_requests", "jitter", "concurrency")) +
+                 (sc.get("keepalive", 2), sc.get("bind", "tcp")))
         run.count("live_scenarios")
         run.count("live_class/" + sc["class"])
         for mech, summary in v:
@@ -426,7 +577,12 @@ def main(tier, seed):
     run.require("e2_cells", "e2_limit_reached", "e2_unlimited_1000_requests", "live_scenarios", "live_requests",
                 "live_recycling_observed", "live_unlimited_no_recycling", "live_class/sync", "live_class/gthread",
                 "live_class/gevent", "live_class/eventlet", "live_keepalive_reuse_checks", "e2_limit_reached_with_failing_requests",
-                "e5_histories", "e5_worker_left_loop_at_limit", "live_failing_requests", "live_two_listener_load")
+                "e5_histories", "e5_worker_left_loop_at_limit", "live_failing_requests", "live_two_listener_load",
+                "e2_keepalive_off_cells", "e2_limit_reached_with_keepalive_off/sync", "e2_limit_reached_with_keepalive_off/gthread",
+                "e2_limit_reached_with_keepalive_off/async", "e3_histories", "e3_worker_exits_inside_murder_workers",
+                "e3_worker_exits_while_master_sleeps", "e3_simultaneous_exits", "e3_pool_restored_checks", "live_master_alive_checks",
+                "live_unix_socket_file_checks", "live_recycling_with_keepalive_off/gevent", "live_recycling_with_keepalive_off/eventlet",
+                "live_recycling_on_unix_bind/gthread")
     cells = []
     for kind in ("sync", "gthread", "async"):
         for m in range(0, 7):
@@ -434,7 +590,11 @@ def main(tier, seed):
                 for pc in ((1,) if kind == "sync" else (1, 2, 3)):
                     for rep in range(2 if tier == "quick" else 8):
                         cells.append((kind, m, j, pc))
+                    if pc <= 2 and (m or j == 0):
+                        cells.append((kind, m, j, pc, 0))          # keep-alive switched off
     shards = [{"kind": "e2", "cells": cells[i::12], "seed": seed, "tier": tier} for i in range(12)]
+    e3_cells = [(w, x, at) for w in (1, 2, 3, 4) for x in range(1, w + 1) for at in (1.0, 1.4)]
+    shards += [{"kind": "e3", "cells": e3_cells[i::2], "sub": i, "seed": seed, "tier": tier} for i in range(2)]
     shards += [{"kind": "e5", "n": 150 if tier == "quick" else 3000, "sub": i, "seed": seed, "tier": tier} for i in range(4)]
     shards += [{"kind": "live", "scenario": sc, "seed": seed, "tier": tier} for sc in live_scenarios(tier, seed)]
     run.assumptions = [
@@ -456,6 +616,12 @@ def replay(path):
     elif c["part"] == "e2-failing":
         from vlib import e2_worker as e2
         v = e2_failing_cell(run, e2, *c["cell"])
+    elif c["part"] == "e3":
+        from vlib import e3_simkernel as e3
+        v, reason, k = e3_cell(run, e3, *c["cell"])
+        for e in k.log:
+            print("  ", e)
+        print("exit:", k.exit_code, "inconclusive:", reason)
     elif c["part"] == "e5":
         from vlib import e5_gthread as e5
         k = e5.run_history(c["case"]["cfg"], [tuple(x) for x in c["case"]["history"]], 1)
